@@ -250,7 +250,10 @@ func Observe(s ref.Store, universe []string) (*Abstract, error) {
 		}
 		l, ok, err := ReadLog(s, n)
 		if err != nil {
-			return nil, err
+			// the store cannot read its own log back: that is an observation (no behaviour of the
+			// specification has such a log), not a failure of the harness
+			a.Logs[n] = [][2]int{{-1, -1}}
+			continue
 		}
 		if ok && len(l) > 0 {
 			// oldest first
